@@ -205,8 +205,11 @@ def run_coq_cases(mod, cases, results, work):
             m = re.search(r"=\s*(\[.*?\])\s*:\s*list", out, re.S)
             if not m:
                 raise RuntimeError(f"cannot parse coqc output for {path}: {out[-500:]}")
-            for a, c in re.findall(r"\((\d+),\s*(\d+)\)", m.group(1)):
+            pair = r"\(\s*(\d+)(?:%Z)?\s*,\s*(\d+)(?:%Z)?\s*\)"
+            for a, c in re.findall(pair, m.group(1)):
                 codes[part[int(a)]] = int(c)
+            if re.search(r"\d", re.sub(pair, "", m.group(1))):
+                raise RuntimeError(f"unparsed residue in coqc output for {path}: {m.group(1)[:300]}")
     return codes
 
 
